@@ -1,6 +1,7 @@
 """C19 - allocation failure: clean error or correct result (R1 over the whole library)."""
 from .. import callgraph
 from ..rules import results as R
+from ..rules import ownership
 from ..rules.flow import find_path_avoiding, describe_path
 
 EXPLANATION = (
@@ -39,6 +40,10 @@ def run(ctx):
     ctx.count("may_allocate_functions", len(may_alloc))
     ctx.floor("C19 allocator call sites", n1, 120)
     ctx.floor("C19 allocating status call sites", n2, 120)
+
+    n3 = ownership.check(ctx, fns, "R2", "own")
+    ctx.count("acquisition_sites", n3)
+    ctx.floor("C19 acquisition sites", n3, 110)
 
     # sticky codec state
     ns = 0
